@@ -223,8 +223,8 @@ def foreign_surface_components(p, names):
 
 def stale_reads(p, scope=""):
     """connections below `scope` whose source runs after its target in the execution order of their lowest common group while
-    no group from there up to the root iterates (every nonlinear solver on the way is run-once): such an input holds the value
-    of the previous run (the declared default on the first run), so the outputs depend on the history of the instance"""
+    that group does not iterate (its nonlinear solver is run-once): such an input holds the value of the previous run (the
+    declared default on the first run), so the outputs depend on the history of the instance"""
     import openmdao.api as om
     m = p.model
     order, iterating = {}, {}
@@ -246,8 +246,9 @@ def stale_reads(p, scope=""):
         if o is None or a[k] not in o or b[k] not in o:
             continue
         if o[a[k]] > o[b[k]]:
-            ups = [".".join(a[:j]) for j in range(k + 1)]
-            if not any(iterating.get(u, False) for u in ups):
+            # a feedback connection is legitimate where the cycle is closed: between children of the group that iterates.  Inside
+            # a run-once group it is a lag even when an outer group iterates (the group is also usable on its own)
+            if not iterating.get(lca, False):
                 res.append("%s reads %s, which runs later in group '%s'" % (tgt, src, lca or "<model>"))
     return res
 
@@ -337,7 +338,7 @@ def aerostruct_point_wiring(env, nsurf, relief, npm):
     n_in = len([a for a in p.model._conn_global_abs_in2out if a.startswith("AS.")])
     env.holds("C16", "the wiring scan saw the point's inputs", n_in > 100, "%d inputs" % n_in)
     st = stale_reads(p, "")
-    env.holds("C16,C15,C11,C17,C03", "aerostructural model: outside the iterated coupled group every input is computed before it is read "
+    env.holds("C16,C15,C11,C17,C03", "aerostructural model: every input is computed before it is read, feedback only between children of the iterating coupled group "
               "(no value of the previous run)", not st, "; ".join(st[:4]))
     from openaerostruct.integration.aerostruct_groups import CoupledAS
     import openmdao.api as _om
